@@ -11,6 +11,7 @@
 #![allow(unused_imports, unused_variables, dead_code, unused_mut, unreachable_code, unused_parens, non_snake_case)]
 use vstd::prelude::*;
 use vstd::std_specs::cmp::PartialOrdSpec;
+use vstd::std_specs::cmp::PartialEqSpec;
 use std::ops::{Add, AddAssign, Sub, SubAssign};
 use std::cmp::Ordering;
 use std::fmt::{Debug, Display};
@@ -165,8 +166,7 @@ pub trait GarnishNumber: Sized {
 
 //@@EXTRACT enum runtime/src/execute.rs SimpleRuntimeState
 //@@EXTRACT struct runtime/src/execute.rs SimpleRuntimeInfo pubfields=1 derive=Clone,Copy
-//@@EXTRACT struct traits/src/data.rs Extents
-//@@EXTRACT impls traits/src/data.rs Extents
+//@@EXTRACT struct traits/src/data.rs Extents pubfields=1
 
 pub trait GarnishDataFactory<Size, Number, Char, Byte, Symbol, Error, SizeIterator, NumberIterator> {
     spec fn size_to_number_spec(from: Size) -> Number;
@@ -348,6 +348,49 @@ pub open spec fn comparable(l: GarnishDataType, r: GarnishDataType) -> bool {
     || (l == GarnishDataType::ByteList && r == GarnishDataType::ByteList) || (l == GarnishDataType::Slice && r == GarnishDataType::Slice)
 }
 
+
+// ---------------------------------------------------------------------------------
+// Iterators handed out by the data object (C11, C16): an iterator is abstracted by the
+// sequence it has still to yield; `next` takes the head (law assumed per iterator type in axioms()).
+// ---------------------------------------------------------------------------------
+pub uninterp spec fn rem<I: Iterator>(i: I) -> Seq<I::Item>;
+
+#[verifier::prophetic]
+pub open spec fn next_law<I: Iterator>() -> bool {
+    forall|i: &mut I, r: Option<I::Item>| #![trigger call_ensures(<I as Iterator>::next, (i,), r)] call_ensures(<I as Iterator>::next, (i,), r) ==>
+        (rem(*i).len() == 0 ==> r is None && rem(*final(i)).len() == 0)
+        && (rem(*i).len() > 0 ==> r == Some(rem(*i)[0]) && rem(*final(i)) == rem(*i).skip(1))
+}
+
+/// `Clone` returns an equal value
+pub open spec fn clone_id<T: Clone>() -> bool {
+    forall|a: T, b: T| #![trigger call_ensures(<T as Clone>::clone, (&a,), b)] call_ensures(<T as Clone>::clone, (&a,), b) ==> a == b
+}
+
+/// C11: two sequences are equal element-wise, in the element type's own equality
+pub open spec fn seq_eq<T: PartialEq>(a: Seq<T>, b: Seq<T>) -> bool {
+    a.len() == b.len() && forall|i: int| 0 <= i < a.len() ==> #[trigger] a[i].eq_spec(&b[i])
+}
+
+/// a0 b0 a1 b1 ... for the first n positions
+pub open spec fn zipn<T>(a: Seq<T>, b: Seq<T>, n: nat) -> Seq<T>
+    decreases n
+{
+    if n == 0 { Seq::empty() } else { zipn(a, b, (n - 1) as nat).push(a[n - 1]).push(b[n - 1]) }
+}
+
+/// the items of two sequences pairwise, as far as both have items (what equality queues for later comparison)
+pub open spec fn zip2<T>(a: Seq<T>, b: Seq<T>) -> Seq<T> {
+    zipn(a, b, if a.len() <= b.len() { a.len() } else { b.len() })
+}
+
+pub broadcast proof fn lemma_zipn_len<T>(a: Seq<T>, b: Seq<T>, n: nat)
+    ensures #[trigger] zipn(a, b, n).len() == 2 * n
+    decreases n
+{
+    if n > 0 { lemma_zipn_len(a, b, (n - 1) as nat); }
+}
+
 /// C12: the order of two lengths
 pub open spec fn nat_cmp(a: nat, b: nat) -> Ordering {
     if a < b { Ordering::Less } else if a == b { Ordering::Equal } else { Ordering::Greater }
@@ -423,6 +466,53 @@ pub open spec fn assoc_value<Sz, N, Sy, C, B>(cells: Map<Sz, Cell<Sz, N, Sy, C, 
         && cells.contains_key(cells[item].a) && cells[cells[item].a].ty == GarnishDataType::Symbol
         && cells[cells[item].a].sym == s
     { Some(cells[item].b) } else { None }
+}
+
+
+// ---------------------------------------------------------------------------------
+// C11: one step of structural equality, written from the property statement: the verdict for the two
+// values themselves and the pairs of sub-values that still have to be equal.
+// ---------------------------------------------------------------------------------
+/// a range bound: both absent (unit) or both numbers that are numerically equal
+pub open spec fn bound_eq<D: GarnishData>(st: St<D::Size, D::Number, D::Symbol, D::Char, D::Byte>, x: D::Size, y: D::Size) -> bool {
+    (st.cells[x].ty == GarnishDataType::Unit && st.cells[y].ty == GarnishDataType::Unit)
+    || (st.cells[x].ty == GarnishDataType::Number && st.cells[y].ty == GarnishDataType::Number && D::num_eq(st.cells[x].num, st.cells[y].num))
+}
+
+/// the flat item sequence of a list or a concatenation
+pub open spec fn flat_items<D: GarnishData>(st: St<D::Size, D::Number, D::Symbol, D::Char, D::Byte>, a: D::Size) -> Seq<D::Size> {
+    if st.cells[a].ty == GarnishDataType::List { st.cells[a].items } else { D::concat_flat(st, a) }
+}
+
+pub open spec fn is_seq_ty(t: GarnishDataType) -> bool { t == GarnishDataType::List || t == GarnishDataType::Concatenation }
+
+pub open spec fn deq<D: GarnishData>(st: St<D::Size, D::Number, D::Symbol, D::Char, D::Byte>, l: D::Size, r: D::Size) -> (bool, Seq<D::Size>) {
+    let cl = st.cells[l]; let cr = st.cells[r]; let none = Seq::<D::Size>::empty();
+    if is_seq_ty(cl.ty) && is_seq_ty(cr.ty) {
+        // lists and concatenations: the flat sequences of their items, pairwise
+        (flat_items::<D>(st, l).len() == flat_items::<D>(st, r).len(), zip2(flat_items::<D>(st, l), flat_items::<D>(st, r)))
+    } else { match (cl.ty, cr.ty) {
+        (GarnishDataType::Unit, GarnishDataType::Unit) | (GarnishDataType::True, GarnishDataType::True) | (GarnishDataType::False, GarnishDataType::False) => (true, none),
+        (GarnishDataType::Type, GarnishDataType::Type) => (cl.typ == cr.typ, none),
+        (GarnishDataType::Expression, GarnishDataType::Expression) | (GarnishDataType::External, GarnishDataType::External) => (cl.a == cr.a, none),
+        (GarnishDataType::Symbol, GarnishDataType::Symbol) => (cl.sym == cr.sym, none),
+        (GarnishDataType::Char, GarnishDataType::Char) => (cl.chr == cr.chr, none),
+        (GarnishDataType::Byte, GarnishDataType::Byte) => (cl.byt == cr.byt, none),
+        (GarnishDataType::Number, GarnishDataType::Number) => (D::num_eq(cl.num, cr.num), none),
+        // a single character or byte equals the one-element list of it
+        (GarnishDataType::Char, GarnishDataType::CharList) => (cr.chars.len() == 1 && cr.chars[0] == cl.chr, none),
+        (GarnishDataType::CharList, GarnishDataType::Char) => (cl.chars.len() == 1 && cl.chars[0] == cr.chr, none),
+        (GarnishDataType::Byte, GarnishDataType::ByteList) => (cr.bytes.len() == 1 && cr.bytes[0] == cl.byt, none),
+        (GarnishDataType::ByteList, GarnishDataType::Byte) => (cl.bytes.len() == 1 && cl.bytes[0] == cr.byt, none),
+        // text, byte lists, symbol lists: element-wise
+        (GarnishDataType::CharList, GarnishDataType::CharList) => (seq_eq(cl.chars, cr.chars), none),
+        (GarnishDataType::ByteList, GarnishDataType::ByteList) => (seq_eq(cl.bytes, cr.bytes), none),
+        (GarnishDataType::SymbolList, GarnishDataType::SymbolList) => (seq_eq(cl.parts, cr.parts), none),
+        (GarnishDataType::Range, GarnishDataType::Range) => (bound_eq::<D>(st, cl.a, cr.a) && bound_eq::<D>(st, cl.b, cr.b), none),
+        // pairs: component-wise
+        (GarnishDataType::Pair, GarnishDataType::Pair) => (true, seq![cl.a, cr.a, cl.b, cr.b]),
+        _ => (false, none),
+    } }
 }
 
 pub trait GarnishData: Sized {
@@ -539,11 +629,22 @@ pub trait GarnishData: Sized {
             r matches Ok(Some(v)) ==> 0 <= Self::nidx(item_index) < self.st().cells[addr].parts.len() && v == self.st().cells[addr].parts[Self::nidx(item_index)],
             r matches Ok(None) ==> !(0 <= Self::nidx(item_index) < self.st().cells[addr].parts.len());
 
-    fn get_char_list_iter(&self, list_addr: Self::Size, extents: Extents<Self::Number>) -> (r: Result<Self::CharIterator, Self::Error>);
-    fn get_byte_list_iter(&self, list_addr: Self::Size, extents: Extents<Self::Number>) -> (r: Result<Self::ByteIterator, Self::Error>);
-    fn get_symbol_list_iter(&self, list_addr: Self::Size, extents: Extents<Self::Number>) -> (r: Result<Self::SymbolListPartIterator, Self::Error>);
-    fn get_list_item_iter(&self, list_addr: Self::Size, extents: Extents<Self::Number>) -> (r: Result<Self::ListItemIterator, Self::Error>);
-    fn get_concatenation_iter(&self, addr: Self::Size, extents: Extents<Self::Number>) -> (r: Result<Self::ConcatenationItemIterator, Self::Error>);
+    // ---- iterators: the selected window of the sequence, in order (C11, C16) ----
+    fn get_char_list_iter(&self, list_addr: Self::Size, extents: Extents<Self::Number>) -> (r: Result<Self::CharIterator, Self::Error>)
+        ensures r matches Ok(it) ==> self.st().cells.contains_key(list_addr) && self.st().cells[list_addr].ty == GarnishDataType::CharList
+            && rem(it) == self.st().cells[list_addr].chars.subrange(Self::ext_sel(self.st().cells[list_addr].chars.len(), extents).0, Self::ext_sel(self.st().cells[list_addr].chars.len(), extents).1);
+    fn get_byte_list_iter(&self, list_addr: Self::Size, extents: Extents<Self::Number>) -> (r: Result<Self::ByteIterator, Self::Error>)
+        ensures r matches Ok(it) ==> self.st().cells.contains_key(list_addr) && self.st().cells[list_addr].ty == GarnishDataType::ByteList
+            && rem(it) == self.st().cells[list_addr].bytes.subrange(Self::ext_sel(self.st().cells[list_addr].bytes.len(), extents).0, Self::ext_sel(self.st().cells[list_addr].bytes.len(), extents).1);
+    fn get_symbol_list_iter(&self, list_addr: Self::Size, extents: Extents<Self::Number>) -> (r: Result<Self::SymbolListPartIterator, Self::Error>)
+        ensures r matches Ok(it) ==> self.st().cells.contains_key(list_addr) && self.st().cells[list_addr].ty == GarnishDataType::SymbolList
+            && rem(it) == self.st().cells[list_addr].parts.subrange(Self::ext_sel(self.st().cells[list_addr].parts.len(), extents).0, Self::ext_sel(self.st().cells[list_addr].parts.len(), extents).1);
+    fn get_list_item_iter(&self, list_addr: Self::Size, extents: Extents<Self::Number>) -> (r: Result<Self::ListItemIterator, Self::Error>)
+        ensures r matches Ok(it) ==> self.st().cells.contains_key(list_addr) && self.st().cells[list_addr].ty == GarnishDataType::List
+            && rem(it) == self.st().cells[list_addr].items.subrange(Self::ext_sel(self.st().cells[list_addr].items.len(), extents).0, Self::ext_sel(self.st().cells[list_addr].items.len(), extents).1);
+    fn get_concatenation_iter(&self, addr: Self::Size, extents: Extents<Self::Number>) -> (r: Result<Self::ConcatenationItemIterator, Self::Error>)
+        ensures r matches Ok(it) ==> self.st().cells.contains_key(addr) && self.st().cells[addr].ty == GarnishDataType::Concatenation
+            && rem(it) == Self::concat_flat(self.st(), addr).subrange(Self::ext_sel(Self::concat_flat(self.st(), addr).len(), extents).0, Self::ext_sel(Self::concat_flat(self.st(), addr).len(), extents).1);
 
     // ---- data table: adders. Frame: existing cells keep their content; nothing else changes ----
     fn add_unit(&mut self) -> (r: Result<Self::Size, Self::Error>)
@@ -749,6 +850,10 @@ pub trait GarnishData: Sized {
     spec fn is_idx(n: Self::Number) -> bool;
     spec fn num_eq(a: Self::Number, b: Self::Number) -> bool;
     spec fn num_zero() -> Self::Number;
+    /// the window [lo, hi) of a sequence of length `len` that an Extents value selects (the data object's own clamping)
+    spec fn ext_sel(len: nat, e: Extents<Self::Number>) -> (int, int);
+    /// the flat item sequence a concatenation denotes (lists contribute their items, other values themselves)
+    spec fn concat_flat(st: St<Self::Size, Self::Number, Self::Symbol, Self::Char, Self::Byte>, addr: Self::Size) -> Seq<Self::Size>;
     spec fn num_one() -> Self::Number;
     spec fn num_max() -> Self::Number;
     spec fn chr_cmp(a: Self::Char, b: Self::Char) -> Option<Ordering>;
@@ -804,6 +909,22 @@ pub trait GarnishData: Sized {
             forall|a: Self::Char, b: Self::Char, c: Option<Ordering>| #![auto] call_ensures(<Self::Char as PartialOrd>::partial_cmp, (&a, &b), c) ==> c == Self::chr_cmp(a, b),
             forall|a: Self::Byte, b: Self::Byte| #![auto] call_requires(<Self::Byte as PartialOrd>::partial_cmp, (&a, &b)),
             forall|a: Self::Byte, b: Self::Byte, c: Option<Ordering>| #![auto] call_ensures(<Self::Byte as PartialOrd>::partial_cmp, (&a, &b), c) ==> c == Self::byt_cmp(a, b),
+            // iterators yield their remaining items in order
+            next_law::<Self::ListItemIterator>(), next_law::<Self::ConcatenationItemIterator>(), next_law::<Self::CharIterator>(),
+            next_law::<Self::ByteIterator>(), next_law::<Self::SymbolListPartIterator>(),
+            // extents: a window inside the sequence; (zero, max_value) selects all of it
+            forall|len: nat, e: Extents<Self::Number>| #![trigger Self::ext_sel(len, e)] 0 <= Self::ext_sel(len, e).0 <= Self::ext_sel(len, e).1 <= len,
+            forall|len: nat, e: Extents<Self::Number>| #![trigger Self::ext_sel(len, e)] e.start == Self::num_zero() && e.end == Self::num_max() ==> Self::ext_sel(len, e) == (0int, len as int),
+            // equality of Size / Symbol / Char / Byte is structural, of Number numeric (vstd's PartialEqSpec view of PartialEq)
+            <Self::Size as PartialEqSpec>::obeys_eq_spec(), forall|a: Self::Size, b: Self::Size| #![auto] a.eq_spec(&b) == (a == b),
+            <Self::Symbol as PartialEqSpec>::obeys_eq_spec(), forall|a: Self::Symbol, b: Self::Symbol| #![auto] a.eq_spec(&b) == (a == b),
+            <Self::Char as PartialEqSpec>::obeys_eq_spec(), forall|a: Self::Char, b: Self::Char| #![auto] a.eq_spec(&b) == (a == b),
+            <Self::Byte as PartialEqSpec>::obeys_eq_spec(), forall|a: Self::Byte, b: Self::Byte| #![auto] a.eq_spec(&b) == (a == b),
+            <Self::Number as PartialEqSpec>::obeys_eq_spec(), forall|a: Self::Number, b: Self::Number| #![auto] a.eq_spec(&b) == Self::num_eq(a, b),
+            // derive(PartialEq) on SymbolListPart: same variant and equal payload
+            <SymbolListPart<Self::Symbol, Self::Number> as PartialEqSpec>::obeys_eq_spec(),
+            forall|a: SymbolListPart<Self::Symbol, Self::Number>, b: SymbolListPart<Self::Symbol, Self::Number>| #![auto] a.eq_spec(&b) == (match (a, b) { (SymbolListPart::Symbol(x), SymbolListPart::Symbol(y)) => x == y, (SymbolListPart::Number(x), SymbolListPart::Number(y)) => Self::num_eq(x, y), _ => false }),
+            forall|a: SymbolListPart<Self::Symbol, Self::Number>, b: SymbolListPart<Self::Symbol, Self::Number>| #![auto] call_ensures(<SymbolListPart<Self::Symbol, Self::Number> as Clone>::clone, (&a,), b) ==> a == b,
             // Char / Byte order is the data object's PartialOrd (vstd's PartialOrdSpec view of the same fact)
             <Self::Char as PartialOrdSpec>::obeys_partial_cmp_spec(),
             forall|a: Self::Char, b: Self::Char| #![auto] a.partial_cmp_spec(&b) == Self::chr_cmp(a, b),
